@@ -99,7 +99,24 @@ func runC16S3(c *fw.Case) {
 				o.key, o.kind = pfx+sid[:4]+"/README", "junk"
 			}
 		case 7:
-			o.key, o.kind = pfx+"zzzz/"+sid+map[bool]string{true: "", false: ".cacnk"}[unc], "misplaced"
+			// a chunk-like name that is not where the store keeps that id: another directory, a directory that is only
+			// a prefix (or the whole) of the name, no directory at all, upper case
+			ext := map[bool]string{true: "", false: ".cacnk"}[unc]
+			switch c.Draw(6, "s3obj.misplaced") {
+			case 0:
+				o.key = pfx + "zzzz/" + sid + ext
+			case 1:
+				o.key = pfx + sid[:2] + "/" + sid + ext
+			case 2:
+				o.key = pfx + sid[:8] + "/" + sid + ext
+			case 3:
+				o.key = pfx + sid + "/" + sid + ext
+			case 4:
+				o.key = pfx + "/" + sid + ext
+			case 5:
+				o.key = pfx + strings.ToUpper(sid[:4]) + "/" + strings.ToUpper(sid) + ext
+			}
+			o.kind = "misplaced"
 		}
 		if o.ownFmt && (refMode == 1 || (refMode >= 2 && r.IntN(2) == 0)) {
 			o.referenced = true
